@@ -4,6 +4,7 @@ From PSO Require Import Raft.Types Raft.Node Raft.Net Raft.Obs Raft.ProofsApplyB
   Raft.ProofsCallbacks Raft.ProofsCallbacks2.
 From PSO Require Import Raft.ProofsElectionGhost Raft.RefineMain Raft.ProofsCallbacksCore.
 From PSO Require Import Raft.Refine2Main Raft.ProofsCallbacksCore2 Raft.ProofsCallbacksFull2.
+From PSO Require Import Raft.Refine3Main Raft.ProofsCallbacksCore3 Raft.ProofsCallbacksFwd3.
 Import ListNotations.
 Import RecordSetNotations.
 Open Scope N_scope.
@@ -206,3 +207,75 @@ Theorem C02_success_is_committed_core2_direct :
                     eidx en <= commit xb -> eb = en.
 Proof. exact success_is_committed_core2_direct. Qed.
 Print Assumptions C02_success_is_committed_core2_direct.
+
+(* the same two statements over the Tier C3 fragment (entries sent in pieces too, no smallness
+   hypothesis: run_ok3 only asks that no complete snapshot is refused for its version) *)
+Theorem C02_success_is_committed_core3_partial :
+  forall (c : conf) (V : list nid) (evs1 : list event) (ev : event) (evs2 : list event)
+         (g1 g2 g3 : gstate) (x : nid) (s : S) (id r : N),
+  dyn c = false -> file_dump c = false -> 1 < batch c ->
+  valid V (evs1 ++ ev :: evs2) = true -> run_ok3 c ginit (evs1 ++ ev :: evs2) = true ->
+  run_trace c ginit evs1 = Some g1 -> gstep c g1 ev = Some (g2, Some (x, s)) -> x < RO_BASE ->
+  In (id, r, SUCCESS) (fired (outs s)) ->
+  run_trace c g2 evs2 = Some g3 ->
+  exists en x0 now rnd bud ord sl,
+    ev = ETick x now rnd bud ord sl /\
+    aget x (nodes g1) = Some x0 /\
+    aget x (nodes g2) = Some (nd s) /\
+    In en (log (nd s)) /\ applied x0 < eidx en /\ eidx en <= commit (nd s) /\
+    In (eterm en, id)
+       (local_subs (subs_of (eidx en)
+          (wait_commit (nd (tick_pre (mk_env c now rnd bud ord sl) (start_S (mk_env c now rnd bud ord sl) x0)))))) /\
+    forall b xb eb, aget b (nodes g3) = Some xb -> b < RO_BASE -> In eb (log xb) -> eidx eb = eidx en ->
+                    eidx en <= commit xb -> eb = en.
+Proof. exact success_is_committed_core3_partial. Qed.
+Print Assumptions C02_success_is_committed_core3_partial.
+
+Theorem C02_success_is_committed_core3_direct :
+  forall (c : conf) (V : list nid) (evs1 : list event) (ev : event) (evs2 : list event)
+         (g1 g2 g3 : gstate) (x : nid) (s : S) (id r : N),
+  dyn c = false -> file_dump c = false -> 1 < batch c ->
+  valid V (evs1 ++ ev :: evs2) = true -> run_ok3 c ginit (evs1 ++ ev :: evs2) = true ->
+  run_trace c ginit evs1 = Some g1 -> gstep c g1 ev = Some (g2, Some (x, s)) -> x < RO_BASE ->
+  In (id, r, SUCCESS) (fired (outs s)) ->
+  run_trace c g2 evs2 = Some g3 ->
+  ~ In id (fwd_run c ginit evs1) ->
+  exists en cm,
+    submitted x cm id evs1 /\ ecmd en = cm /\
+    In en (log (nd s)) /\ eidx en <= commit (nd s) /\
+    forall b xb eb, aget b (nodes g3) = Some xb -> b < RO_BASE -> In eb (log xb) -> eidx eb = eidx en ->
+                    eidx en <= commit xb -> eb = en.
+Proof. exact success_is_committed_core3_direct. Qed.
+Print Assumptions C02_success_is_committed_core3_direct.
+
+(* the id -> command link without the "never forwarded" hypothesis: a callback that fires SUCCESS
+   at a voter x (its command was appended by x itself, or forwarded by x to the leader with a
+   request id, answered with the position, and subscribed there) fires for an entry that carries
+   the command submitted at x under that callback id.  Read-only nodes (x >= RO_BASE), which may
+   be restarted and then re-use request ids, are not covered. *)
+Theorem C02_success_is_committed_core3_forwarded :
+  forall (c : conf) (V : list nid) (evs1 : list event) (ev : event) (evs2 : list event)
+         (g1 g2 g3 : gstate) (x : nid) (s : S) (id r : N),
+  dyn c = false -> file_dump c = false -> 1 < batch c ->
+  valid V (evs1 ++ ev :: evs2) = true -> run_ok3 c ginit (evs1 ++ ev :: evs2) = true ->
+  run_trace c ginit evs1 = Some g1 -> gstep c g1 ev = Some (g2, Some (x, s)) -> x < RO_BASE ->
+  In (id, r, SUCCESS) (fired (outs s)) ->
+  run_trace c g2 evs2 = Some g3 ->
+  exists en cm,
+    submitted x cm id evs1 /\ ecmd en = cm /\
+    In en (log (nd s)) /\ eidx en <= commit (nd s) /\
+    forall b xb eb, aget b (nodes g3) = Some xb -> b < RO_BASE -> In eb (log xb) -> eidx eb = eidx en ->
+                    eidx en <= commit xb -> eb = en.
+Proof. exact success_is_committed_core3_forwarded. Qed.
+Print Assumptions C02_success_is_committed_core3_forwarded.
+
+(* without "x < RO_BASE" the id -> command link is FALSE: a restarted read-only node re-uses its
+   request ids while the leader still holds a request of the previous incarnation; the answer to the
+   old request subscribes the new callback at the position of the old command
+   (C02_success_is_committed_core3_forwarded_any_node is the statement above for any node x, with the
+   conclusion reduced to: some committed entry of the log of x carries a command submitted at x under
+   the fired id; the witness is the 64-event run ro_trace, Example readonly_request_id_reuse) *)
+Theorem C02_success_is_committed_core3_forwarded_readonly_refuted :
+  ~ C02_success_is_committed_core3_forwarded_any_node.
+Proof. exact success_is_committed_core3_forwarded_readonly_refuted. Qed.
+Print Assumptions C02_success_is_committed_core3_forwarded_readonly_refuted.
